@@ -164,6 +164,12 @@ package controller
 //@   pure
 //@   ensures r <==> (t != nil && u != nil && t.Time < u.Time)
 
+// the zero time.Time as a reading of the unbounded ns count
+//@ spec timeZero() int
+//@ assume func (*k8s.io/apimachinery/pkg/apis/meta/v1.Time).IsZero(t) (r)
+//@   pure
+//@   ensures r <==> (t == nil || t.Time == timeZero())
+
 // older(a, b): node a was created strictly before node b
 //@ spec older(a *v1.Node, b *v1.Node) bool = a.CreationTimestamp.Time < b.CreationTimestamp.Time
 
@@ -172,6 +178,16 @@ package controller
 //@ func (nodesByOldestCreationTime).Less(n, i, j) (r)
 //@   requires 0 <= i && i < len(n) && 0 <= j && j < len(n) && n[i].node != nil && n[j].node != nil
 //@   ensures [C08] r <==> older(n[i].node, n[j].node)
+//@ func (nodesByOldestCreationTime).Swap(n, i, j)
+//@   requires 0 <= i && i < len(n) && 0 <= j && j < len(n)
+//@   modifies elems(n)
+//@   ensures n[i].node == old(n[j].node) && n[i].index == old(n[j].index) && n[j].node == old(n[i].node) && n[j].index == old(n[i].index)
+//@   ensures forall k :: 0 <= k && k < len(n) && k != i && k != j ==> n[k].node == old(n[k].node) && n[k].index == old(n[k].index)
+//@ func (nodesByNewestCreationTime).Swap(n, i, j)
+//@   requires 0 <= i && i < len(n) && 0 <= j && j < len(n)
+//@   modifies elems(n)
+//@   ensures n[i].node == old(n[j].node) && n[i].index == old(n[j].index) && n[j].node == old(n[i].node) && n[j].index == old(n[i].index)
+//@   ensures forall k :: 0 <= k && k < len(n) && k != i && k != j ==> n[k].node == old(n[k].node) && n[k].index == old(n[k].index)
 //@ func (nodesByNewestCreationTime).Len(n) (r)
 //@   ensures r == len(n)
 //@ func (nodesByNewestCreationTime).Less(n, i, j) (r)
@@ -214,11 +230,18 @@ package controller
 //@   ensures [C11] dry(c, nodeGroup) ==> Jlen == old(Jlen)
 //@   ensures forall k :: old(Jlen) <= k && k < Jlen ==> Jkind[k] == K_UPDATE
 //@   ensures [C01,C09,C10,C12] forall k :: old(Jlen) <= k && k < Jlen ==> LNby[Jname[k]] != nil && clsU(LNby[Jname[k]])
+// C08 oldest first: no node given that was left unattempted (no fetch of it was issued) is strictly older than a node a write was sent for
+//@   ensures [C08] !dry(c, nodeGroup) ==> (forall k, q {Jname[k], elemref(nodes, q)} :: old(Jlen) <= k && k < Jlen && 0 <= q && q < len(nodes) && !getSeen[nodes[q].Name] ==> !older(nodes[q], LNby[Jname[k]]))
 //@ loop #0
 //@   modifies elems(sorted)
 //@   invariant len(sorted) == #i && base(sorted) == entry(base(sorted)) && cap(sorted) == len(nodes) && off(sorted) == 0
 //@   invariant forall k :: 0 <= k && k < #i ==> sorted[k].node == nodes[k] && sorted[k].index == k
 //@ loop #1
+//@   invariant [C08] forall i, j :: 0 <= i && i < j && j < len(sorted) ==> !older(sorted[j].node, sorted[i].node)
+//@   invariant [C08] !dry(c, nodeGroup) ==> (forall p :: 0 <= p && p < #i ==> getSeen[sorted[p].node.Name])
+//@   invariant [C08] forall s string :: old(getSeen)[s] ==> getSeen[s]
+//@   invariant [C08] forall q {elemref(nodes, q)} :: 0 <= q && q < len(nodes) ==> 0 <= spinv(base(sorted), q) && spinv(base(sorted), q) < len(sorted) && sorted[spinv(base(sorted), q)].index == q
+//@   invariant [C08] !dry(c, nodeGroup) ==> (forall k, p {Jname[k], elemref(sorted, p)} :: old(Jlen) <= k && k < Jlen && #i <= p && p < len(sorted) ==> !older(sorted[p].node, LNby[Jname[k]]))
 //@   modifies elems(taintedIndices), nodeGroup.taintTracker, elems(nodeGroup.taintTracker)
 //@   invariant base(taintedIndices) == entry(base(taintedIndices)) && cap(taintedIndices) == n && off(taintedIndices) == 0
 //@   invariant (base(nodeGroup.taintTracker) == entry(base(nodeGroup.taintTracker)) && off(nodeGroup.taintTracker) == entry(off(nodeGroup.taintTracker)) && cap(nodeGroup.taintTracker) == entry(cap(nodeGroup.taintTracker))) || birth(base(nodeGroup.taintTracker)) >= entry(now)
@@ -243,6 +266,8 @@ package controller
 //@   ensures forall k :: old(Jlen) <= k && k < Jlen ==> Jkind[k] == K_UPDATE
 //@   ensures [C01,C09,C10,C12] forall k :: old(Jlen) <= k && k < Jlen ==> LNby[Jname[k]] != nil && clsT(LNby[Jname[k]])
 //@   ensures [C07] !dry(c, nodeGroup) && len(res) < n ==> (forall i :: 0 <= i && i < len(nodes) && k8s.hasEsc(nodes[i]) ==> getSeen[nodes[i].Name])
+// C07 newest first: no tainted node left unattempted is strictly newer than a node an untaint write was sent for
+//@   ensures [C07] !dry(c, nodeGroup) ==> (forall k, q {Jname[k], elemref(nodes, q)} :: old(Jlen) <= k && k < Jlen && 0 <= q && q < len(nodes) && k8s.hasEsc(nodes[q]) && !getSeen[nodes[q].Name] ==> !older(LNby[Jname[k]], nodes[q]))
 // C05/C07: outside dry mode the count reported is exactly the number of untaint attempts that did not fail
 //@   ensures [C05,C07] !dry(c, nodeGroup) ==> len(res) == (nGet - old(nGet)) - (nKFail - old(nKFail))
 //@ loop #0
@@ -261,6 +286,8 @@ package controller
 //@   invariant forall p :: 0 <= p && p < len(sorted) ==> sorted[p].node != nil && 0 <= sorted[p].index && sorted[p].index < len(nodes) && sorted[p].node == nodes[sorted[p].index]
 //@   invariant [C07] !dry(c, nodeGroup) ==> (forall p :: 0 <= p && p < #i && k8s.hasEsc(sorted[p].node) ==> getSeen[sorted[p].node.Name])
 //@   invariant [C07] forall s string :: old(getSeen)[s] ==> getSeen[s]
+//@   invariant [C07] forall i, j :: 0 <= i && i < j && j < len(sorted) ==> !older(sorted[i].node, sorted[j].node)
+//@   invariant [C07] !dry(c, nodeGroup) ==> (forall k, p {Jname[k], elemref(sorted, p)} :: old(Jlen) <= k && k < Jlen && #i <= p && p < len(sorted) ==> !older(LNby[Jname[k]], sorted[p].node))
 //@   invariant [C07] forall q {elemref(nodes, q)} :: 0 <= q && q < len(nodes) ==> 0 <= spinv(base(sorted), q) && spinv(base(sorted), q) < len(sorted) && sorted[spinv(base(sorted), q)].index == q
 //@   invariant base(nodeGroup.taintTracker) == entry(base(nodeGroup.taintTracker)) && off(nodeGroup.taintTracker) == entry(off(nodeGroup.taintTracker)) && cap(nodeGroup.taintTracker) == entry(cap(nodeGroup.taintTracker))
 
@@ -278,6 +305,7 @@ package controller
 //@   ensures [C01,C09,C10,C12] forall k :: old(Jlen) <= k && k < Jlen ==> LNby[Jname[k]] != nil && clsT(LNby[Jname[k]])
 //@   ensures [C07] !dry(c, opts.nodeGroup) && n < opts.nodesDelta ==> (forall i :: 0 <= i && i < len(opts.taintedNodes) && k8s.hasEsc(opts.taintedNodes[i]) ==> getSeen[opts.taintedNodes[i].Name])
 //@   ensures [C05,C07] !dry(c, opts.nodeGroup) ==> n == (nGet - old(nGet)) - (nKFail - old(nKFail))
+//@   ensures [C07] !dry(c, opts.nodeGroup) ==> (forall k, q {Jname[k], elemref(opts.taintedNodes, q)} :: old(Jlen) <= k && k < Jlen && 0 <= q && q < len(opts.taintedNodes) && k8s.hasEsc(opts.taintedNodes[q]) && !getSeen[opts.taintedNodes[q].Name] ==> !older(LNby[Jname[k]], opts.taintedNodes[q]))
 
 // ScaleUp. C07: untaint first; at most one cloud request, as the last event, for exactly the
 // remainder after the clamp; never while a tainted node was left unattempted.
@@ -293,6 +321,8 @@ package controller
 //@   ensures [C01,C09,C10,C12] forall k :: old(Jlen) <= k && k < Jlen && Jkind[k] == K_UPDATE ==> LNby[Jname[k]] != nil && clsT(LNby[Jname[k]])
 //@   ensures [C04] forall k :: old(Jlen) <= k && k < Jlen && Jkind[k] == C_INCREASE ==> tgt(gid(opts.nodeGroup)) + Jnum[k] <= min(opts.nodeGroup.Opts.MaxNodes, cmax(gid(opts.nodeGroup)))
 //@   ensures [C07] Jlen > old(Jlen) && Jkind[Jlen - 1] == C_INCREASE ==> (exists u :: 0 <= u && u < opts.nodesDelta && nUntaintOK - old(nUntaintOK) <= u && Jnum[Jlen - 1] == min(opts.nodesDelta - u, min(opts.nodeGroup.Opts.MaxNodes, cmax(gid(opts.nodeGroup))) - tgt(gid(opts.nodeGroup))))
+// C07 newest first: every untaint write goes to a node that is not older than any tainted node left unattempted
+//@   ensures [C07] !dry(c, opts.nodeGroup) ==> (forall k, q {Jname[k], elemref(opts.taintedNodes, q)} :: old(Jlen) <= k && k < Jlen && Jkind[k] == K_UPDATE && 0 <= q && q < len(opts.taintedNodes) && k8s.hasEsc(opts.taintedNodes[q]) && !getSeen[opts.taintedNodes[q].Name] ==> !older(LNby[Jname[k]], opts.taintedNodes[q]))
 // C05/C07: the amount requested from the cloud is what is left of the delta after the untaints that did not fail (clamped to the headroom)
 //@   ensures [C05,C07] Jlen > old(Jlen) && Jkind[Jlen - 1] == C_INCREASE && !dry(c, opts.nodeGroup) ==> Jnum[Jlen - 1] == min(opts.nodesDelta - ((nGet - old(nGet)) - (nKFail - old(nKFail))), min(opts.nodeGroup.Opts.MaxNodes, cmax(gid(opts.nodeGroup))) - tgt(gid(opts.nodeGroup)))
 //@   ensures [C07] Jlen > old(Jlen) && Jkind[Jlen - 1] == C_INCREASE && !dry(c, opts.nodeGroup) ==> (forall i :: 0 <= i && i < len(opts.taintedNodes) && k8s.hasEsc(opts.taintedNodes[i]) ==> getSeen[opts.taintedNodes[i].Name])
@@ -312,6 +342,7 @@ package controller
 //@   ensures [C11] dry(c, opts.nodeGroup) ==> Jlen == old(Jlen)
 //@   ensures forall k :: old(Jlen) <= k && k < Jlen ==> Jkind[k] == K_UPDATE
 //@   ensures [C01,C09,C10,C12] forall k :: old(Jlen) <= k && k < Jlen ==> LNby[Jname[k]] != nil && clsU(LNby[Jname[k]])
+//@   ensures [C08] !dry(c, opts.nodeGroup) ==> (forall k, q {Jname[k], elemref(opts.untaintedNodes, q)} :: old(Jlen) <= k && k < Jlen && 0 <= q && q < len(opts.untaintedNodes) && !getSeen[opts.untaintedNodes[q].Name] ==> !older(opts.untaintedNodes[q], LNby[Jname[k]]))
 //@   ensures err == nil ==> 0 <= n && n <= opts.nodesDelta
 
 // ---------------------------------------------------------------- scale_down.go: reaping
@@ -406,6 +437,8 @@ package controller
 //@   ensures [C11] dry(c, opts.nodeGroup) ==> Jlen == old(Jlen)
 //@   ensures [C03,C06] nUntaintOK == old(nUntaintOK) && old(nTaintOK) <= nTaintOK && nTaintOK - old(nTaintOK) <= max(0, len(opts.untaintedNodes) - opts.nodeGroup.Opts.MinNodes) && nTaintOK - old(nTaintOK) <= opts.nodesDelta
 //@   ensures forall k :: old(Jlen) <= k && k < Jlen ==> Jkind[k] == K_UPDATE || Jkind[k] == C_DELNODE || Jkind[k] == K_DELETE
+// C08: every taint write of a scale-down goes to a node that is not younger than any untainted node left unattempted
+//@   ensures [C08] !dry(c, opts.nodeGroup) ==> (forall k, q {Jname[k], elemref(opts.untaintedNodes, q)} :: old(Jlen) <= k && k < Jlen && Jkind[k] == K_UPDATE && 0 <= q && q < len(opts.untaintedNodes) && !getSeen[opts.untaintedNodes[q].Name] ==> !older(opts.untaintedNodes[q], LNby[Jname[k]]))
 //@   ensures [C01,C09,C10,C12] forall k :: old(Jlen) <= k && k < Jlen ==> LNby[Jname[k]] != nil && (Jkind[k] == K_UPDATE ==> clsU(LNby[Jname[k]])) && (Jkind[k] != K_UPDATE ==> clsT(LNby[Jname[k]]) && reapable(LNby[Jname[k]], opts.nodeGroup, clock))
 
 // ---------------------------------------------------------------- controller.go: classification
@@ -427,7 +460,8 @@ package controller
 //@   ensures fresh(base(untaintedNodes)) && fresh(base(taintedNodes)) && fresh(base(forceTaintedNodes)) && fresh(base(cordonedNodes))
 //@   ensures len(untaintedNodes) + len(taintedNodes) + len(forceTaintedNodes) + len(cordonedNodes) == len(allNodes)
 //@   ensures [C01,C03,C06,C09,C10,C12,C13] !dry(c, nodeGroup) ==> (forall j :: 0 <= j && j < len(untaintedNodes) ==> clsU(untaintedNodes[j])) && (forall j :: 0 <= j && j < len(taintedNodes) ==> clsT(taintedNodes[j])) && (forall j :: 0 <= j && j < len(forceTaintedNodes) ==> clsF(forceTaintedNodes[j])) && (forall j :: 0 <= j && j < len(cordonedNodes) ==> unsched(cordonedNodes[j]))
-//@   ensures [C03,C06,C09,C13] !dry(c, nodeGroup) ==> (forall i :: 0 <= i && i < len(allNodes) && clsU(allNodes[i]) ==> (exists j :: 0 <= j && j < len(untaintedNodes) && untaintedNodes[j] == allNodes[i]))
+//@   ensures [C03,C06,C08,C09,C13] !dry(c, nodeGroup) ==> (forall i :: 0 <= i && i < len(allNodes) && clsU(allNodes[i]) ==> (exists j :: 0 <= j && j < len(untaintedNodes) && untaintedNodes[j] == allNodes[i]))
+//@   ensures [C07] !dry(c, nodeGroup) ==> (forall i :: 0 <= i && i < len(allNodes) && clsT(allNodes[i]) ==> (exists j :: 0 <= j && j < len(taintedNodes) && taintedNodes[j] == allNodes[i]))
 //@ loop #0
 //@   modifies elems(untaintedNodes), elems(taintedNodes), elems(forceTaintedNodes), elems(cordonedNodes)
 //@   invariant base(untaintedNodes) == entry(base(untaintedNodes)) && base(taintedNodes) == entry(base(taintedNodes)) && base(forceTaintedNodes) == entry(base(forceTaintedNodes)) && base(cordonedNodes) == entry(base(cordonedNodes))
@@ -437,6 +471,7 @@ package controller
 //@   invariant k8s.named(untaintedNodes) && k8s.named(taintedNodes) && k8s.named(forceTaintedNodes) && k8s.named(cordonedNodes)
 //@   invariant !dry(c, nodeGroup) ==> (forall j :: 0 <= j && j < len(untaintedNodes) ==> clsU(untaintedNodes[j])) && (forall j :: 0 <= j && j < len(taintedNodes) ==> clsT(taintedNodes[j])) && (forall j :: 0 <= j && j < len(forceTaintedNodes) ==> clsF(forceTaintedNodes[j])) && (forall j :: 0 <= j && j < len(cordonedNodes) ==> unsched(cordonedNodes[j]))
 //@   invariant !dry(c, nodeGroup) ==> (forall i :: 0 <= i && i < #i && clsU(allNodes[i]) ==> (exists j :: 0 <= j && j < len(untaintedNodes) && untaintedNodes[j] == allNodes[i]))
+//@   invariant [C07] !dry(c, nodeGroup) ==> (forall i :: 0 <= i && i < #i && clsT(allNodes[i]) ==> (exists j :: 0 <= j && j < len(taintedNodes) && taintedNodes[j] == allNodes[i]))
 
 // ---------------------------------------------------------------- quantities and float arithmetic (float64 modelled as the reals)
 
@@ -550,6 +585,11 @@ package controller
 // a taint pass is entered only from the two lower bands, with the band's rate; the do-nothing branch only
 // when no band asks for anything; a scale-up only with a delta >= 1, which is 1 when only an exception
 // (scale_on_starve, max_node_age) asked for it. C05: above the threshold the delta is the computed one.
+// C07: the list a scale-up untaints from holds every tainted (not force-tainted, uncordoned) node of the scan
+//@   assert @ScaleUp#1 [C07] !dry(c, nodeGroup) ==> (forall i :: 0 <= i && i < len(allNodes) && clsT(allNodes[i]) ==> (exists j :: 0 <= j && j < len(#arg1.taintedNodes) && #arg1.taintedNodes[j] == allNodes[i]))
+//@   assert @ScaleUp#2 [C07] !dry(c, nodeGroup) ==> (forall i :: 0 <= i && i < len(allNodes) && clsT(allNodes[i]) ==> (exists j :: 0 <= j && j < len(#arg1.taintedNodes) && #arg1.taintedNodes[j] == allNodes[i]))
+// C08: the list a scale-down picks from holds every untainted, uncordoned node of the scan
+//@   assert @ScaleDown#1 [C08] !dry(c, nodeGroup) ==> (forall i :: 0 <= i && i < len(allNodes) && clsU(allNodes[i]) ==> (exists j :: 0 <= j && j < len(scaleOptions.untaintedNodes) && scaleOptions.untaintedNodes[j] == allNodes[i]))
 // C09/C13: the node count a scale-up is sized on is that of the untainted (uncordoned) list
 //@   assert @calcScaleUpDelta#1 [C05,C09,C13] len(#arg0) == len(untaintedNodes) && base(#arg0) == base(untaintedNodes) && off(#arg0) == off(untaintedNodes)
 // C13: what is divided is the request total over the group's pods and the allocatable total over the untainted nodes
